@@ -18,6 +18,7 @@ type Plan struct {
 	Env       []EnvEvent       `json:"env,omitempty"`
 	Net       NetCfg           `json:"net"`
 	Yields    map[string]int64 `json:"yields,omitempty"` // site -> max ns
+	Panics    map[string]int   `json:"panics,omitempty"` // fault point -> permille of calls that panic (injected by the simulator)
 	PoolFresh int              `json:"pool_fresh_permille"`
 	OrderSalt uint64           `json:"order_salt"`
 	Deadline  time.Duration    `json:"deadline"`          // absolute simulated time
